@@ -7,6 +7,13 @@ from graphgen import *
 
 def prepare(case):
     d = case["in"]
+    if d.get("rt"):
+        r = d["rt"]
+        assert r["kw"] in ("oneOf", "anyOf") and len(r["members"]) >= 2 and all(k in RT_KINDS for _, k in r["members"])
+        assert len({n for n, _ in r["members"]} | {r["union"]}) == len(r["members"]) + 1
+        spec = rt_spec(d)
+        return {"op": case["op"], "in": dict(d, spec=spec, schemas=spec["components"]["schemas"], cfg={"all_schemas": True, "no_helpers": bool(d.get("no_helpers"))},
+                                             mode="client-mod", judges=["size", "rt"])}
     names = d["names"]
     edges = [tuple(e) for e in d["edges"]]
     assert names and all(e[0] in names and e[2] in names and e[1] in KINDS + KINDS_EXTRA + KINDS_UNION for e in edges) and not has_allof_cycle(names, edges)
@@ -123,6 +130,41 @@ def union_cases(ctx):
     return out, risky
 
 
+RT_NAMES = {"rec": ["Operation", "Branch"], "recArr": ["Group", "AllOf"], "recOpt": ["Chain", "Link"], "loose": ["Constant", "Literal"], "strict": ["Named", "Leaf"], "closed": ["Sealed", "Exact"]}
+
+
+def rt_cases(ctx):
+    """recursive unions `Expr = anyOf/oneOf[...]` whose members are listed in every order: specific recursive members
+    (required operator), permissive ones (nothing required), closed ones; the judge reads the variant order and the
+    members' (wire name, optional) lists from the EMITTED types"""
+    import itertools
+    r = ctx.rng
+    out = []
+    rec = ("rec", "recArr", "recOpt")
+    pairs = [p for p in itertools.permutations(RT_KINDS, 2) if p[0] in rec or p[1] in rec]
+    allc = []
+    for kinds in pairs:
+        for kw in ("anyOf", "oneOf"):
+            for nh in (False, True):
+                allc.append({"op": "graph.emit", "in": {"rt": {"union": "Expr", "kw": kw, "members": [[RT_NAMES[k][0], k] for k in kinds]}, "no_helpers": nh}})
+    out += r.sample(allc, 40) if ctx.quick else allc
+    for _ in range(25 if ctx.quick else 600):
+        n = r.randint(3, 4)
+        kinds = [r.choice(RT_KINDS) for _ in range(n)]
+        if not any(k in rec for k in kinds):
+            kinds[r.randrange(n)] = r.choice(rec)
+        seen = {}
+        members = []
+        for k in kinds:
+            i = seen.get(k, 0); seen[k] = i + 1
+            if i >= len(RT_NAMES[k]):
+                continue
+            members.append([RT_NAMES[k][i], k])
+        if len(members) >= 2:
+            out.append({"op": "graph.emit", "in": {"rt": {"union": r.choice(["Expr", "Node", "ZNode"]), "kw": r.choice(["anyOf", "oneOf"]), "members": members}, "no_helpers": r.random() < 0.5}})
+    return out
+
+
 def run(ctx):
     proofs_ok, driver_ok = ctx.build_lean(["Oas3Model.Props.C10"])
     if proofs_ok:
@@ -133,8 +175,9 @@ def run(ctx):
     if driver_ok and ctx.build_harness(["k_gen"]):
         ucases, risky = union_cases(ctx)
         corpus = vlib_corpus(ctx)
-        risky = [c for c in corpus if c["op"] == "graph.emit" and not c["in"].get("no_helpers") and overflow_shape(c["in"])] + risky
-        allc = [c for c in corpus if c not in risky] + ucases + cases(ctx)
+        risky = [c for c in corpus if c["op"] == "graph.emit" and not c["in"].get("rt") and not c["in"].get("no_helpers") and overflow_shape(c["in"])] + risky
+        risky = [c for c in risky if not c["in"].get("rt")]
+        allc = [c for c in corpus if c not in risky] + ucases + rt_cases(ctx) + cases(ctx)
         B = 500
         for i in range(0, len(allc), B):
             ctx.classify(ctx.evaluate(allc[i:i + B]), tie="K+E")
